@@ -74,7 +74,8 @@ def handle (line : String) : String :=
       | "ge" => bin fun a b => showB (ge a b)
       | "eq" => bin fun a b => showB (eq a b)
       | "ne" => bin fun a b => showB (ne a b)
-      | "hasheq" => bin fun a b => showB (C10.hash a == C10.hash b)
+      -- the harness canonicalises unequal values to `false` (their hashes may or may not collide; not a property)
+      | "hasheq" => bin fun a b => showB (a == b && C10.hash a == C10.hash b)
       | "assign" => match rest with
         | [x] => match x.toInt? with
           | some x =>
